@@ -10,7 +10,7 @@ namespace PyCraft.Life
 /-- At the end of a `with self._write_lock:` block (the lock is held).  (The views enumerate all
 constructors: no wildcard, so that every equation lemma is unconditional.) -/
 def NPc.isRel : NPc → Bool
-  | .tkRel | .wRel | .wFailRel | .callRel _ _ | .epRel => true
+  | .tkRel | .wRel | .wFailRel | .callRel _ _ | .hRel | .epRel => true
   | .unborn | .waitPrev | .takeOver | .loopChk | .wBody | .rChk | .rRead | .call _ | .exit | .exc
   | .hRun | .hChk | .epilogue | .fin | .dead => false
 
@@ -18,14 +18,14 @@ def NPc.isRel : NPc → Bool
 epilogue: this thread is `connection.networking_thread`. -/
 def NPc.holds : NPc → Bool
   | .tkRel | .loopChk | .wBody | .wRel | .wFailRel | .rChk | .rRead | .call _ | .callRel _ _
-  | .exit | .exc | .hRun | .hChk | .epilogue => true
+  | .exit | .exc | .hRun | .hChk | .hRel | .epilogue => true
   | .unborn | .waitPrev | .takeOver | .epRel | .fin | .dead => false
 
 /-- Created as a successor and not yet in possession of the slot. -/
 def NPc.waiting : NPc → Bool
   | .waitPrev | .takeOver => true
   | .unborn | .tkRel | .loopChk | .wBody | .wRel | .wFailRel | .rChk | .rRead | .call _
-  | .callRel _ _ | .exit | .exc | .hRun | .hChk | .epilogue | .epRel | .fin | .dead => false
+  | .callRel _ _ | .exit | .exc | .hRun | .hChk | .hRel | .epilogue | .epRel | .fin | .dead => false
 
 def UPc.isRel : UPc → Bool
   | .rel _ => true
@@ -113,6 +113,8 @@ def succSt (s : Sys) (p : Nat) : Sys :=
 def discSt (s : Sys) : Sys :=
   { s with connected := false, net := dnet s, socket := .none, file := dfile s }
 
+theorem doDisconnect_discSt (s : Sys) : doDisconnect s = discSt s := doDisconnect_eq s
+
 theorem busy_congr (s : Sys) (so : Sock) (f : FileSt) (b : Bool) (n : Nat) :
     busy { s with socket := so, file := f, connected := b, conns := n } = busy s := rfl
 
@@ -194,6 +196,7 @@ macro "step_cases" hs:ident : tactic => `(tactic| (
   all_goals (try dsimp only [] at $hs:ident)
   all_goals repeat' split at $hs:ident
   all_goals try (cases $hs:ident; done)
+  all_goals try (simp only [doDisconnect_discSt] at $hs:ident)
   all_goals try (
     rw [body_alias] at $hs:ident
     generalize hr : bodyR _ _ _ = r at $hs:ident
